@@ -673,7 +673,11 @@ func vC19WireQuery(r *rand.Rand, b vC19BuildArgs) ([]byte, bool) {
 			case 2:
 				rd = append(rd, vC19WireOption(dns.EDNS0PADDING, make([]byte, r.Intn(6)))...)
 			case 3:
-				rd = append(rd, vC19WireOption(uint16(65001+r.Intn(5)), []byte{9})...)
+				if r.Intn(2) == 0 {
+					rd = append(rd, vC19WireOption(dns.EDNS0TCPKEEPALIVE, nil)...)
+				} else {
+					rd = append(rd, vC19WireOption(uint16(65001+r.Intn(5)), []byte{9})...)
+				}
 			default:
 				rd = append(rd, vC19WireECS(r, b)...)
 				hasECS = true
@@ -834,7 +838,10 @@ func TestVerifC19Edns(t *testing.T) {
 				b.nets = nil
 			}
 		}
-		cfg := &config.Config{}
+		cfg := &config.Config{CookieSecret: "verif-secret"}
+		if r.Intn(2) == 0 {
+			cfg.NSID = "sdns-verif"
+		}
 		cfg.ECS = config.ECSConfig{Enabled: b.enabled, ForwardV4Max: b.f4, ForwardV6Max: b.f6, MinScopeV4: b.m4, MinScopeV6: b.m6, ClientNetworks: b.nets}
 		e := New(cfg)
 		pol := e.ecsPolicy
@@ -886,6 +893,7 @@ func TestVerifC19Edns(t *testing.T) {
 		respCoq := ""
 		var respDesc []string
 		big := r.Intn(6) == 0
+		tryBytes, bytesEDE, wroteBytes := r.Intn(3) == 0, r.Intn(2) == 0, false
 		next := middleware.HandlerFunc(func(ctx context.Context, ch *middleware.Chain) {
 			called = true
 			marker = middleware.HasClientECS(ctx)
@@ -933,6 +941,28 @@ func TestVerifC19Edns(t *testing.T) {
 				respDesc = append(respDesc, o.String())
 			}
 			respCoq = "[" + strings.Join(lists, "; ") + "]"
+			if tryBytes {
+				// the byte path: a packed body without OPT handed to the writer chain, as the cache's
+				// wire serving does; the edns layer appends the per-client OPT
+				if ww, ok := ch.Writer.(middleware.WireWriter); ok {
+					if _, ready := ww.WireReady(); ready {
+						plain := new(dns.Msg)
+						plain.SetReply(um)
+						plain.RecursionAvailable = true
+						plain.Answer = resp.Answer[:1]
+						if body, err := plain.Pack(); err == nil {
+							buf := make([]byte, len(body), len(body)+512)
+							copy(buf, body)
+							info := middleware.WireInfo{Rcode: dns.RcodeSuccess, HasEDE: bytesEDE, EDECode: dns.ExtendedErrorCodeStaleAnswer, EDEText: "verif"}
+							if err := ww.WriteWire(buf, info); err == nil {
+								wroteBytes = true
+								ch.Cancel()
+								return
+							}
+						}
+					}
+				}
+			}
 			_ = ch.Writer.WriteMsg(resp)
 			ch.Cancel()
 		})
@@ -941,6 +971,9 @@ func TestVerifC19Edns(t *testing.T) {
 			ch.ResetWire(w, &wireReq)
 		} else {
 			ch.Reset(w, msg)
+		}
+		if tryBytes {
+			ch.AllowDirectPack()
 		}
 		ch.Next(context.Background())
 
@@ -969,7 +1002,53 @@ func TestVerifC19Edns(t *testing.T) {
 			tr.emit(map[string]any{"k": k, "coq": fmt.Sprintf("CaseEdnsReq %s %s %s %s (Some %s)", b.coq(), remoteCoq, extraIn, vC19Bool(marker), seenCoq),
 				"go_fail": goFail, "nontrivial": anyECS,
 				"desc": map[string]any{"ecs_cfg": fmt.Sprintf("%+v", b), "remote": remote.String(), "path": path, "query_extra": qdesc, "upstream_extra": sdesc, "marker": marker}})
-			if w.msg != nil {
+			if w.msg != nil && wroteBytes {
+				// facts the layer composes the OPT from
+				hasCookie, hasNSID, hasKA := false, false, false
+				if sel := msg.IsEdns0(); sel != nil {
+					for _, o := range sel.Option {
+						switch x := o.(type) {
+						case *dns.EDNS0_COOKIE:
+							if len(x.Cookie) >= 16 {
+								hasCookie = true
+							}
+						case *dns.EDNS0_NSID:
+							hasNSID = true
+						case *dns.EDNS0_TCP_KEEPALIVE:
+							hasKA = true
+						}
+					}
+				}
+				var codes []string
+				nOPT := 0
+				for _, rr := range w.msg.Extra {
+					if o, ok := rr.(*dns.OPT); ok {
+						nOPT++
+						for _, x := range o.Option {
+							codes = append(codes, fmt.Sprintf("%d%%N", x.Option()))
+						}
+					}
+				}
+				obs := "None"
+				if nOPT > 0 {
+					obs = "(Some [" + strings.Join(codes, "; ") + "])"
+				}
+				goFail2 := ""
+				if _, leaked := vC19Counts(w.msg); leaked {
+					goFail2 = "byte-path reply carries a subnet option"
+				}
+				if nOPT > 1 || (noedns && nOPT > 0) {
+					goFail2 = fmt.Sprintf("byte-path reply carries %d OPT records (client OPT: %v)", nOPT, !noedns)
+				}
+				var rdesc []string
+				for _, rr := range w.msg.Extra {
+					rdesc = append(rdesc, rr.String())
+				}
+				tr.emit(map[string]any{"k": "edns-reply-bytes", "coq": fmt.Sprintf("CaseEdnsWire %s %s %s %s %s %s", vC19Bool(noedns), vC19Bool(hasCookie),
+					vC19Bool(hasNSID && cfg.NSID != ""), vC19Bool(hasKA && proto == "tcp"), vC19Bool(bytesEDE), obs),
+					"go_fail": goFail2, "nontrivial": fw || !noedns,
+					"desc": map[string]any{"proto": proto, "path": path, "nsid_configured": cfg.NSID != "", "forwarded_ecs_on_request_opt": fw, "reply_extra": rdesc}})
+			} else if w.msg != nil {
 				counts, leaked := vC19Counts(w.msg)
 				trunc := w.msg.Truncated
 				goFail2 := ""
